@@ -67,6 +67,12 @@ where
             o.slice()[..n].fill(T::default());
             o.produce(n, &[]);
             self.current_delay -= n;
+            if self.current_delay > 0 {
+                // Output filled up before the whole delay was emitted. Input
+                // must not be copied yet, even if the reader frees up space
+                // in the meantime.
+                return Ok(BlockRet::WaitForStream(&self.dst, 1));
+            }
         }
         {
             let (input, _tags) = self.src.read_buf()?;
